@@ -21,7 +21,7 @@ RULE = ("A real Zeroconf registers a service (v4/v6/dual/multi-address, custom T
         "missing; flush bit exactly on non-PTR records); conflict before the last probe check => NonUniqueNameException or first "
         "free '-N' name, re-probed, conflicting name never announced/answered; the same through the blocking register_service of "
         "a Zeroconf() with its own loop thread, in real time (counts, order, content, outcome) (NonUniqueNameException when no '-N' name fits a "
-        "label: instance labels of 61..63 bytes are generated); in a quarter of the injected conflicts the other owner spells the name(s) in another ASCII letter case (same instance name); an expired-but-unpurged cached copy of the conflicting pointer is "
+        "label: instance labels of 61..63 bytes are generated); in a fifth of these runs a browser of the same type runs on the registering instance and has sent a QM query less than a second before the probes; in a quarter of the injected conflicts the other owner spells the name(s) in another ASCII letter case (same instance name); an expired-but-unpurged cached copy of the conflicting pointer is "
         "one of the start states; registry holds each name once. Distinct = "
         "(variant, conflict window, rename, chain length, address family, layout) classes.")
 ASSUMPTIONS = ["conflict arriving within 1 ms of the last probe instant may be either detected or missed (same-instant ordering)"]
@@ -64,6 +64,9 @@ def gen_scenario(rng: random.Random) -> Dict[str, Any]:
     # the application registers an object it has used before (registered and unregistered earlier on this instance): whatever
     # the object memoised then must not leak into the new registration, in particular not after a rename
     sc["reuse"] = variant in ("none", "inject") and rng.random() < 0.2
+    # a browser of the same type runs on the registering instance: its QM start-up queries (about 1 s, 5 s and 14 s after its
+    # start) fall shortly before the probes
+    sc["own_browser"] = rng.choice([1150.0, 1300.0, 1900.0, 5200.0, 14200.0]) if (variant in ("none", "inject") and rng.random() < 0.2) else None
     sc["ann_queries"] = sorted(float(rng.choice([360, 400, 450, 520, 560, 600, 640, 700, 790])) for _ in range(rng.choice([0, 0, 1, 2])))
     if variant == "inject":
         if rng.random() < 0.7:
@@ -156,6 +159,17 @@ def run_scenario(res: Result, seed: int) -> None:
             if sc.get("stale_copy"):
                 held = [r for r in zc.cache.get_all_by_details(s.type, 12, 1) if r.alias.lower() == s.name.lower()]
                 res.obs("stale_copy_held_expired_at_start" if (held and held[0].is_expired(sim.now_ms())) else "stale_copy_not_as_planned")
+            own_browser = None
+            if sc.get("own_browser"):
+                from zeroconf import ServiceListener
+                from zeroconf.asyncio import AsyncServiceBrowser
+
+                class Quiet(ServiceListener):
+                    def add_service(self, *a: Any) -> None: pass
+                    def remove_service(self, *a: Any) -> None: pass
+                    def update_service(self, *a: Any) -> None: pass
+                own_browser = AsyncServiceBrowser(zc, s.type, listener=Quiet())
+                await sim.sleep_ms(sc["own_browser"])
             P0 = sim.now_ms()
             out["P0"] = P0
             out["mark"] = len(sim.net.trace)
@@ -207,6 +221,8 @@ def run_scenario(res: Result, seed: int) -> None:
             else:
                 if reg._services:
                     viol("c09.registry", "failed_registration_left_entry", "registry holds %r after NonUniqueNameException" % list(reg._services))
+            if own_browser is not None:
+                await own_browser.async_cancel()
             await azc.async_close()
             if peer_azc:
                 await peer_azc.async_close()
